@@ -53,6 +53,20 @@ func (p ProfileSpec) sorts() bool {
 	return false
 }
 
+// withoutSort is the same profile minus its sort option (WhatWgSortQuery -> WhatWg).
+func (p ProfileSpec) withoutSort() ProfileSpec {
+	if p.Name == "WhatWgSortQuery" {
+		return ProfileSpec{Name: "WhatWg"}
+	}
+	q := ProfileSpec{Name: p.Name}
+	for _, o := range p.Opts {
+		if o.Name != "sort-query" {
+			q.Opts = append(q.Opts, o)
+		}
+	}
+	return q
+}
+
 func sortMode(p ProfileSpec) int {
 	for _, o := range p.Opts {
 		if o.Name == "sort-query" {
@@ -150,19 +164,22 @@ func Check17(c Case17, r *core.Rec) {
 	onlyQuery := b1 == b2 && a1 == a2
 	if onlyQuery && c.Profile.sorts() && !c.Profile.decodes() {
 		// KF-C17-serializer: the sorted list is re-serialized leaving "% & = +" literal. Attributed
-		// only if (1) s1's query is not the tree-style serialization of its own form-urlencoded parse
-		// (so the first pass wrote delimiters that came from decoded content) and (2) the second pass
-		// produced exactly what the recorded quirk predicts: the tree-style serialization of the
-		// sorted parse of s1's query.
-		l1 := collapseList(lossyList(spec.ParseURLEncoded(q1)))
-		_, q2, _, _ := splitQuery(s2)
-		sorted := l1.apply(SPOp{Op: "sort"})
-		if sortMode(c.Profile) == 2 {
-			sorted = l1.apply(SPOp{Op: "sortabs"})
-		}
-		if treeSerialize(l1) != q1 && q2 == treeSerialize(sorted) && !sortAmbiguous(l1) {
-			r.Known("KF-C17-serializer", "%s: %s -> %s -> %s", c.Profile, quote(x), quote(s1), quote(s2))
-			return
+		// only if both passes did exactly what the recorded defect predicts: with L0 the decoded list
+		// of the same profile WITHOUT its sort option, (1) L0 contains one of "% & = +", (2) s1's query
+		// is the tree-style serialization of sorted L0, (3) s2's query is the tree-style serialization
+		// of the sorted form-urlencoded parse of s1's query.
+		if u0, err0 := c.Profile.withoutSort().parser().Parse(x); err0 == nil && u0 != nil {
+			l0 := collapseList(lossyList(spec.ParseURLEncoded(u0.Query())))
+			l1 := collapseList(lossyList(spec.ParseURLEncoded(q1)))
+			_, q2, _, _ := splitQuery(s2)
+			op := SPOp{Op: "sort"}
+			if sortMode(c.Profile) == 2 {
+				op = SPOp{Op: "sortabs"}
+			}
+			if hasCodecDelimiter(l0) && q1 == treeSerialize(l0.apply(op)) && q2 == treeSerialize(l1.apply(op)) && !sortAmbiguous(l0) && !sortAmbiguous(l1) {
+				r.Known("KF-C17-serializer", "%s: %s -> %s -> %s", c.Profile, quote(x), quote(s1), quote(s2))
+				return
+			}
 		}
 	}
 	// KF-C17-opaque-host-decoding: repeated decoding turns an escaped delimiter inside an opaque host
